@@ -32,7 +32,8 @@ RULE = ("JSON values built from an adversarial alphabet (quotes, backslashes, \\
         "real one-step Workflow; on the UPDATE path: object created, drifted at one other path, PATCH body read, "
         "with the literal also under a literally written ownerReferences key; and through the real cache: a "
         "ResourceFunction / Workflow with a ValueFunction dependency offered twice with different static values, "
-        "then re-prepared by koreo after the dependency is updated); "
+        "then re-prepared by koreo after the dependency is updated); maps holding Python-equal but JSON-different "
+        "twin leaves (1 / true / 1.0, 0 / false, [1] / [true] ...) side by side or in nested maps, compared type-exactly; "
         "encoder outputs plus random mutations of them are lexed/parsed/evaluated by real celpy and by the model. "
         "A case is non-trivial when it contains a character that needs quoting, a numeral look-alike or a container; "
         "distinct by content")
@@ -779,6 +780,46 @@ def rand_value(rng, depth=0):
     return d
 
 
+# leaves that are equal for Python's == / hash but are different JSON values: an implementation that de-duplicates,
+# caches or looks up static values by Python equality delivers one twin with the other's value AND type
+TWINS = [(1, True), (0, False), (1, 1.0), (0, 0.0), (2, 2.0), (-1, -1.0), (1000, 1e3), (True, 1.0), (False, 0.0),
+         ([1], [True]), ([0], [False]), ([1, 2], [1.0, 2.0]), ([{"a": 1}], [{"a": True}]), ([[0]], [[False]]),
+         (-0.0, 0), (2 ** 53, float(2 ** 53))]
+TWIN_ROUTES = ("direct", "vf-return", "vf-locals", "rf-post", "rf-overlay-first-of-2", "rf-create-overlay",
+               "rf-vf-overlay-return", "wf-step-state", "rf-patch-nested")
+
+
+def twin_value(rng):
+    """a map holding one or more twin pairs: in the same map, or one twin in a nested map / list visited earlier or
+    later, in either order, among unrelated leaves"""
+    d = {}
+    fillers = ["x", 7, None, "1", "true", 2.5, [], {}]
+    slots = []
+    for i in range(rng.choice([1, 1, 2, 3])):
+        a, b = rng.choice(TWINS)
+        if rng.random() < 0.5:
+            a, b = b, a
+        shape = rng.choice(["same", "same", "nested-first", "nested-second", "both-nested", "deep"])
+        ka, kb = f"t{i}a", f"t{i}b"
+        if shape == "same":
+            slots += [(ka, a), (kb, b)]
+        elif shape == "nested-first":
+            slots += [(ka, {"in": a, "f": rng.choice(fillers)}), (kb, b)]
+        elif shape == "nested-second":
+            slots += [(ka, a), (kb, {"f": rng.choice(fillers), "in": b})]
+        elif shape == "both-nested":
+            slots += [(ka, {"in": a}), (kb, {"in": b})]
+        else:
+            slots += [(ka, {"m": {"n": {"in": a}}}), (kb, b)]
+    for j in range(rng.choice([0, 1, 2])):
+        slots.insert(rng.randint(0, len(slots)), (f"f{j}", rng.choice(fillers)))
+    if rng.random() < 0.3:
+        rng.shuffle(slots)
+    for k, x in slots:
+        d[k] = x
+    return d
+
+
 MUT_CHARS = ['"', '"', '\\', '\\', '\n', ' ', ',', ':', '[', ']', '{', '}', '0', '1', '8', '9', '.', 'e', 'E', '+',
              '-', 'n', 'r', 't', 'x', 'u', 'a', '7', 'f', "'", '\r', '\t', 'true', 'null', '""', '"""', '\\"',
              '\\\\', '\\x4', '\\12', '\u00e9', '\u0663', '_', 'false', '\\n', '\x0c', '\x01', '/', '(', '!']
@@ -1136,6 +1177,13 @@ def gen_values(ctx: Ctx):
     n_f = 150 if quick else 4000
     for _ in range(n_f):
         yield [rand_float(rng)], ("direct",)
+    # Python-equal twins (1 / true / 1.0 ...) side by side in one block, along the overlay-style routes
+    twin_routes = tuple(r for r in TWIN_ROUTES if r in ROUTES)
+    for a, b in TWINS:
+        yield {"first": a, "second": b}, twin_routes
+        yield {"first": b, "nest": {"second": a}}, twin_routes
+    for _ in range(120 if quick else 2500):
+        yield twin_value(rng), twin_routes
 
 
 def run(ctx: Ctx):
